@@ -1,4 +1,9 @@
 mod c17;
+mod c19;
+#[path = "../../etfmc/src/denote.rs"]
+#[allow(dead_code)]
+mod denote;
+mod procs;
 mod explore;
 mod world;
 
@@ -13,10 +18,20 @@ fn main() {
             let cov = c17::run(&rep);
             rep.finish(cov)
         }
+        "c19" => {
+            let rep = Report::new("C19", "model_checking");
+            let cov = c19::run(&rep);
+            rep.finish(cov)
+        }
         _ => {
             eprintln!("usage: netmc <c04|c05|c06|c07|c16|c17|c18|c19>");
             2
         }
     };
+    let hp = explore::HARNESS_PANICS.load(std::sync::atomic::Ordering::SeqCst);
+    if hp > 0 {
+        println!("MACHINERY-ERROR: {} execution(s) panicked inside the harness itself (not a verdict)", hp);
+        std::process::exit(4);
+    }
     std::process::exit(code);
 }
